@@ -1063,7 +1063,6 @@ impl_wrapper!(impl<T: TS> TS for std::cell::Cell<T>);
 impl_wrapper!(impl<T: TS> TS for std::cell::RefCell<T>);
 impl_wrapper!(impl<T: TS> TS for std::sync::Mutex<T>);
 impl_wrapper!(impl<T: TS> TS for std::sync::RwLock<T>);
-impl_wrapper!(impl<T: TS> TS for std::marker::PhantomData<T>);
 
 // serde serializes a `Weak<T>` like `Option<T>`: the value if it can still be upgraded, else `null`
 impl<T: TS + ?Sized> TS for std::sync::Weak<T> {
@@ -1091,6 +1090,32 @@ impl<T: TS + ?Sized> TS for std::sync::Weak<T> {
     {
         <T as crate::TS>::visit_generics(v);
         v.visit::<T>();
+    }
+
+    fn decl() -> String {
+        panic!("{} cannot be declared", <Self as crate::TS>::name())
+    }
+
+    fn decl_concrete() -> String {
+        panic!("{} cannot be declared", <Self as crate::TS>::name())
+    }
+
+    fn inline_flattened() -> String {
+        panic!("{} cannot be flattened", <Self as crate::TS>::name())
+    }
+}
+
+// serde serializes `PhantomData<T>` as a unit struct, i.e. `null`, whatever `T` is
+impl<T: TS> TS for std::marker::PhantomData<T> {
+    type WithoutGenerics = Self;
+    type OptionInnerType = Self;
+
+    fn name() -> String {
+        "null".to_owned()
+    }
+
+    fn inline() -> String {
+        "null".to_owned()
     }
 
     fn decl() -> String {
